@@ -17,7 +17,7 @@ ASSUMPTIONS = ['pack/accessor layout is as decided under C10.E1']
 
 T = 'datacake_crdt::timestamp::'
 HT = T + 'HLCTimestamp::'
-WALL = T + 'get_datacake_timestamp'
+WALL = T + 'get_datacake_timestamp'     # default; replaced by role-based discovery in check()
 
 
 def state_writes(body):
@@ -86,7 +86,8 @@ def check_body(ctx, facts, body, which):
 
     # ---- the pack call feeding the write ----------------------------------------
     wl = op_local(sw[0][2]['rv'].get('op')) if sw[0][2]['rv']['k'] == 'use' else None
-    packs = [(b, t) for b, t in calls if cname(t) == T + 'pack' and wl is not None and t['dest']['l'] in flow.backward([wl])]
+    packs = [(b, t) for b, t in calls if cname(t) and cname(t).startswith(T) and len(t['args']) == 3 and body.local_ty(t['dest']['l']) == 'u64'
+             and wl is not None and t['dest']['l'] in flow.backward([wl])]
     if len(packs) != 1:
         ctx.bad('C09.H2', which + '|pack', site(body), 'the value written to the clock is not the result of one `pack` call (unrecognised idiom, fail closed)')
         return
@@ -324,7 +325,17 @@ def check_body(ctx, facts, body, which):
 
 
 def check(ctx):
+    global WALL
     facts = ctx.facts('prod')
+    # the wall-clock reader, by role: the argument-less crdt function returning a Duration from which SystemTime::now is reachable
+    cg = CallGraph(facts)
+    for b in facts.bodies.values():
+        if b.crate == 'datacake_crdt' and b.kind == 'fn' and b.argc == 0 and b.local_ty(0) == 'core::time::Duration' and not b.d['promoted']:
+            reach = cg.reach([b], bound=3)
+            if any(cname(t) == 'std::time::SystemTime::now' for rb in reach for _b, t in rb.calls()):
+                callers = [1 for x in facts.bodies.values() if x.name in (HT + 'send', HT + 'recv') for _b, t in x.calls() if cname(t) == b.name]
+                if callers:
+                    WALL = b.name
     for which in ('send', 'recv'):
         b = facts.body(HT + which)
         if b is None:
